@@ -50,6 +50,7 @@ type Call struct {
 	Update bool // for Begin: write transaction requested; otherwise: the call belongs to a write transaction
 	Key    []byte
 	TxID   int
+	Done   bool // Commit/Rollback on a transaction that has already ended (clover's deferred Rollback after Commit)
 }
 
 type Store struct {
@@ -140,6 +141,23 @@ func (s *Store) enter(k Kind, update bool, key []byte, txid int) (Call, bool) {
 		hook(c)
 	}
 	return c, fail
+}
+
+// enterTx is enter for Commit/Rollback; it flags calls on an already finished transaction.
+func (s *Store) enterTx(k Kind, t *vtx) (Call, bool) {
+	if !t.done {
+		return s.enter(k, t.update, nil, t.id)
+	}
+	s.mu.Lock()
+	c := Call{Kind: k, Seq: s.seq, FSeq: -1, Update: t.update, TxID: t.id, Done: true}
+	s.seq++
+	s.Counts[k]++
+	hook := s.Hook
+	s.mu.Unlock()
+	if hook != nil {
+		hook(c)
+	}
+	return c, false
 }
 
 func (s *Store) leave(c Call) {
@@ -233,7 +251,7 @@ func (t *vtx) Cursor(forward bool) (store.Cursor, error) {
 }
 
 func (t *vtx) Commit() error {
-	c, fail := t.s.enter(Commit, t.update, nil, t.id)
+	c, fail := t.s.enterTx(Commit, t)
 	defer t.s.leave(c)
 	if fail {
 		t.tx.Rollback()
@@ -246,7 +264,7 @@ func (t *vtx) Commit() error {
 }
 
 func (t *vtx) Rollback() error {
-	c, _ := t.s.enter(Rollback, t.update, nil, t.id)
+	c, _ := t.s.enterTx(Rollback, t)
 	defer t.s.leave(c)
 	err := t.tx.Rollback()
 	t.finish()
